@@ -404,9 +404,17 @@ def wrapper_ids_case(case):
         return sc.qr_find_scp(asce, ctx, msg)
     spy.sop_classes = list(sc.qr_find_scp.sop_classes)
 
+    proposals = {}
+
     class Srv(aem.AE):
         def on_receive_find(self, context, ds):
             return iter(())
+
+        def on_association_request(self, asce, rq):
+            who = rq.calling_ae_title
+            who = (who.decode('ascii', 'replace') if isinstance(who, bytes) else str(who)).strip()
+            with lock:
+                proposals.setdefault(who, []).append([(i.context_id, str(i.abs_sub_item.name)) for i in rq.variable_items[1:-1]])
     srv = Srv('SRV', 0)
     srv.timeout = 10
     srv.add_scp(spy)
@@ -436,6 +444,10 @@ def wrapper_ids_case(case):
             return 'thread %d made %d c_find() calls, the provider saw %d requests' % (i, case['calls'], len(ids))
         if len(set(ids)) != len(ids):
             return 'thread %d: consecutive c_find() calls used message ids %r - not unique within the thread' % (i, ids)
+        props = proposals.get('WRAP%d' % i, [])
+        if any(p != props[0] for p in props[1:]):
+            return ('thread %d: consecutive c_find() calls proposed %r contexts - the same call must make the same request '
+                    '(first: %r, last: %r)' % (i, [len(p) for p in props], props[0][:3], props[-1][:6]))
     return None
 
 
